@@ -384,3 +384,120 @@ pub fn check_against_refc(case: &SemCase, st: &mut Stats, tag: &str, ex: &Excl) 
     }
     Ok(())
 }
+
+/// Outcome of compiling+linking one side of a differential pair
+pub enum Side {
+    Rejected(String),
+    Panic(String),
+    Unlinkable(String),
+    Ok(Box<Capture>, Box<Image>),
+}
+
+pub fn build_side(src: &str, opts: &Opts, shuffle: u32) -> Side {
+    match build(src, opts, shuffle) {
+        Built::Rejected(e) => Side::Rejected(msg_key(&e.msg())),
+        Built::Panic(p) => Side::Panic(p.sig),
+        Built::LayoutFail(l) => Side::Unlinkable(format!("{:?}", l)),
+        Built::AsmFail(a) => Side::Unlinkable(format!("asm: {:?}", a.kind)),
+        Built::NoMain => Side::Unlinkable("no main".into()),
+        Built::Ok(c, i) => Side::Ok(c, i),
+    }
+}
+
+pub const DIFF_CYCLES: u64 = 300_000;
+
+/// Co-execute two images of (what must be) the same program from identical initial states.
+/// `prog` lists the C-level globals to compare. Returns Err on a behavioural difference.
+/// Ok(n) = number of vectors on which the reference side changed the state.
+pub fn co_execute(
+    prog: &Program,
+    a: &Image,
+    b: &Image,
+    inits: &[Init],
+    st: &mut Stats,
+    tag: &str,
+    what: (&str, &str),
+) -> Result<usize, String> {
+    co_execute_f(prog, a, b, inits, st, tag, what, &|_| false)
+}
+
+/// true if the source has undefined / unspecified behaviour on this input (RefC, ISO reading):
+/// two correct compilations may then legitimately differ
+pub fn source_is_undefined(prog: &Program, img: &Image, init: &Init, signed_chars: bool) -> bool {
+    let rd = [refc::READINGS[0]];
+    match refc::run_all_ex(prog, &img.layout, init, REFC_STEPS, &rd, signed_chars, false) {
+        Verdict::Agreed(_) => false,
+        Verdict::Timeout => false,
+        _ => true,
+    }
+}
+
+pub fn co_execute_f(
+    prog: &Program,
+    a: &Image,
+    b: &Image,
+    inits: &[Init],
+    st: &mut Stats,
+    tag: &str,
+    what: (&str, &str),
+    skip: &dyn Fn(&Init) -> bool,
+) -> Result<usize, String> {
+    let mut changed_n = 0;
+    for (vi, init) in inits.iter().enumerate() {
+        st.count("vectors");
+        if skip(init) {
+            st.count("ub_or_unspecified_in_source");
+            continue;
+        }
+        let mut ra = run_image(a, init, DIFF_CYCLES);
+        if ra.stop == Stop::CycleLimit {
+            let rb = run_image(b, init, DIFF_CYCLES);
+            if rb.stop == Stop::CycleLimit {
+                st.count("both_nonterminating");
+                continue;
+            }
+            // the other side finished within the budget: a work bound proportional to its
+            // length decides (optimised and unoptimised code differ by a small factor only)
+            ra = run_image(a, init, 8 * rb.cycles + 50_000);
+            if ra.stop == Stop::CycleLimit {
+                return Err(format!(
+                    "{}-termination: {} is still running after {} cycles but {} stopped with {:?} after {}; input #{}",
+                    tag, what.0, ra.cycles, what.1, rb.stop, rb.cycles, vi
+                ));
+            }
+        }
+        let rb = run_image(b, init, 8 * ra.cycles + 50_000);
+        if ra.stop != Stop::Halt {
+            // the reference side crashed (a known C01-class defect, or UB in the source):
+            // nothing to compare against
+            st.count("reference_side_crashed");
+            continue;
+        }
+        if rb.stop != Stop::Halt {
+            return Err(format!(
+                "{}-termination: {} halts after {} cycles but {} stopped with {:?}; input #{}",
+                tag, what.0, ra.cycles, what.1, rb.stop, vi
+            ));
+        }
+        st.count("compared");
+        let oa = observable(prog, &ra);
+        let ob = observable(prog, &rb);
+        if let Some(d) = diff_states(&oa, ra.x, ra.y, &ob, rb.x, rb.y, &[]) {
+            return Err(format!("{}-mismatch: {} vs {}: {}; input #{}", tag, what.0, what.1, d, vi));
+        }
+        // did the run change anything?
+        let ib = init_state_bytes(prog, init);
+        let mut ch = ra.x != init.x || ra.y != init.y;
+        for (k, v) in &oa {
+            if let Some(b0) = ib.get(k) {
+                if b0.iter().zip(v.iter()).any(|(p, q)| p != q) {
+                    ch = true;
+                }
+            }
+        }
+        if ch {
+            changed_n += 1;
+        }
+    }
+    Ok(changed_n)
+}
